@@ -97,8 +97,18 @@ fn build(rng: &mut Rng, kind: Kind) -> Built {
             sections.retain(|s| *s != 0);
         } else {
             let mut w = rng.bytes(4);
+            // boundary: a non-zero word whose low byte(s) are zero must still count as "no header"
+            match rng.below(4) {
+                0 => w[0] = 0,
+                1 => {
+                    w[0] = 0;
+                    w[1] = 0;
+                    w[2] = 0;
+                }
+                _ => {}
+            }
             if w == [0, 0, 0, 0] {
-                w[0] = 1;
+                w[3] = 1;
             }
             data.extend(w);
         }
